@@ -514,7 +514,12 @@ func (s *state) checkReads(t *rapid.T, step string) {
 		plainBefore := plain()
 		s.e.TakeCalls()
 		rr := s.reads(id)
-		if ack := s.acked[id]; ack != "" && plainBefore && plain() {
+		if s.acked[id] != "" && s.lost[id] {
+			// a shard keeps metadata of a lost blob: engine.get then falls back to
+			// reading every shard ignoring metadata (same mechanism as fpMarked)
+			s.labels["acknowledged-removal-with-lost-blob-elsewhere(not-asserted)"] = true
+		}
+		if ack := s.acked[id]; ack != "" && !s.lost[id] && plainBefore && plain() {
 			s.labels["acknowledged-removal-effectiveness-checked"] = true
 			for _, r := range rr {
 				if r.cls == engx.OK {
@@ -562,7 +567,9 @@ func (s *state) checkReads(t *rapid.T, step string) {
 						}
 						otherNoMeta = otherNoMeta || (!isHolder && s.e.Mode(k).NoMetabase())
 					}
-					if g == "mark" && len(holders) > 0 && otherNoMeta && r.name != "Head" {
+					// (the same fallback is also entered when another shard kept the
+					// metadata of a blob that was lost under it)
+					if g == "mark" && len(holders) > 0 && (otherNoMeta || s.lost[id]) && r.name != "Head" {
 						fp = fpMarked
 					}
 					if fp != "" && s.known(fp) {
